@@ -106,6 +106,16 @@ chk("C18", "h_book (ASan+rel) + texel OwnBook slice",
     "Held on every probe (7e5 quick / 2e7 thorough). The frequency claim is asserted for weight shares >= 2% over 2000 probes (miss probability < 1e-17), smaller shares are counted as not asserted.",
     "refchess legality; the console listing Book::getAllBookMoves is exercised only on books whose entries are all legal (on garbage entries its move formatting need not terminate; it is not on the probe path)",
     "DESIGN.md section 3 C18", category="fault_enumeration")
+chk("C06", "h_cos (engine in-process under cosched, virtual clock)",
+    "runtime trace monitor under a virtual clock: limits handed to the search (hook), every stop test of the main search thread (hook) and time-stamped output are checked against the budget derived from the go command; deterministic per (script, seed)",
+    "Held on every timed search run (about 430 quick / 2e4 thorough) across the time-control grid; 'one polling interval' is measured per search from the observed stop tests, so retuning the poll frequency cannot raise an alarm.",
+    "virtual time = nodes of the main search thread (100 per ms) + sleeps; 2 ms allowance for the engine's millisecond truncation; hooks H1-H3",
+    "DESIGN.md section 3 C06")
+chk("C10", "h_cos (engine in-process under cosched)",
+    "runtime trace monitor under a deterministic cooperative scheduler that owns every blocking point (pthread interposition): seeded uniform-random and PCT schedules with pre-emption points every 64 nodes; offline checker over the recorded event trace (exactly-once bestmove, helpers idle at search end, job/root attribution of accepted helper results, no stale work); deadlock = no runnable thread",
+    "Held on every (script, seed) run (320 quick / 3e4 thorough; every run a distinct schedule digest). Interleavings are sampled, not enumerated: no exhaustive pre-emption-bounded exploration is claimed. A lost-wake-up mutant of Notifier::wait is flagged as a logical deadlock in >90% of the runs.",
+    "the scheduler serialises threads (no weak-memory effects, no data races - those are C09); hooks H5 provide the events; virtual clock",
+    "DESIGN.md section 3 C10")
 
 
 def main():
@@ -150,6 +160,7 @@ def main():
             dict(name="h_eval", path="/verif/src/h_eval.cpp", serves_properties=["C07"], kind_free_text="in-process harness built in 5 variants (generic/SSSE3/AVX2/AVX-512/ASan)"),
             dict(name="h_tt", path="/verif/src/h_tt.cpp", serves_properties=["C08"], kind_free_text="multi-threaded in-process harness on TranspositionTable (rel/ASan/TSan)"),
             dict(name="h_book", path="/verif/src/h_book.cpp", serves_properties=["C18"], kind_free_text="in-process harness: Book/PolyglotBook with harness-written and damaged polyglot files"),
+            dict(name="h_cos", path="/verif/src/h_cos.cpp", serves_properties=["C10", "C06", "C05", "C07"], kind_free_text="the whole engine (app/texel objects without main + texellib) linked with the cooperative scheduler src/common/cosched.cpp that defines the pthread primitives; custom cin/cout streambufs; hooks installed"),
             dict(name="h_rules", path="/verif/src/h_rules.cpp", serves_properties=["C01", "C02", "C17"], kind_free_text="in-process harness linking texellib + refchess oracle (rel and asan+ubsan builds)"),
         ],
         checks=checks,
@@ -160,7 +171,7 @@ def main():
         f.write("\n")
 
 
-HOOK_COMMITS = []
+HOOK_COMMITS = ['1cbe8b6', '9438b0c', 'e2fe229', '35f68a5']
 
 if __name__ == "__main__":
     main()
